@@ -118,7 +118,9 @@ func AppendSENString(buf []byte, s string, htmlSafe bool) []byte {
 	}
 	b0 := len(buf)
 	m := senMap[s[0]]
-	quote := maxTokenLen < len(s) || (m != 'o' && m != '8' && !(!htmlSafe && m == 'h'))
+	// A leading 0xEF is taken as the start of a byte order mark when it is
+	// the first byte of a document so it can not start a bare token.
+	quote := maxTokenLen < len(s) || s[0] == 0xEF || (m != 'o' && m != '8' && !(!htmlSafe && m == 'h'))
 	buf = append(buf, '"')
 	start := 0
 	skip := 0
